@@ -6,7 +6,12 @@ import Hgxv.Model.C15
   `consts <N> <nats ds>`                                           -> `C;summands;C';C'';kappas` or `nonfinite`
   `expdeg <nats ds>` / `expavg <nats ds>` / `dimseq <nats ds>`     -> expected statistics
   `wupd <ratss r>` / `uupd <ratss r>`                              -> updated array or `nonfinite`
-  `fit <fixedU> <fixedW> <Dsup|-1> <ratss ru> <ratss rw> <sqrtC> <n>` -> `rej` or `D|u|w` -/
+  `fit <fixedU> <fixedW> <Dsup|-1> <ratss ru> <ratss rw> <sqrtC> <n> <tol|none> <every>`
+                                                                   -> `rej` or `D|u|w|training_iter|tolerance_reached`
+  `traj <us> <ws>`                                                 -> `ok`: stores a recorded trajectory of (u, w) states (`|`-separated)
+  `ctrl <tol|none> <every> <n>`                                    -> `rej` or `training_iter|tolerance_reached|index of the final state`:
+                                                                      the model's loop `loopFrom` (stopping rule, `old`, `break`) run with
+                                                                      the loop body replaced by "successor in the stored trajectory" -/
 open Wire C15
 
 structure St where
@@ -16,6 +21,7 @@ structure St where
   w : List (List Rat) := []
   edges : List (List Nat) := []
   A : List Rat := []
+  tbl : List Params := []
 
 def St.data (s : St) : Data := dataOf s.N s.K s.edges s.A
 
@@ -23,6 +29,23 @@ def showMat (n m : Nat) (x : Mat) : String := showRatss (toRows n m x)
 def showOptMat (n m : Nat) : Option Mat → String
   | some x => showMat n m x
   | none => "nonfinite"
+
+def stop? (tol every : String) : Option (Option Stop) :=
+  match nat? every with
+  | none => none
+  | some ev => if tol = "none" then some none else (rat? tol).map fun t => some { tol := t, every := ev }
+
+def ratsss? (s : String) : Option (List (List (List Rat))) := listOf? "|" "-" ratss? s
+
+/-- successor of `p` in a recorded trajectory (the loop body is a function of the state) -/
+def nextIn : List Params → Params → Params
+  | a :: b :: rest, p => if a.u == p.u && a.w == p.w then b else nextIn (b :: rest) p
+  | _, p => p
+
+/-- position of the first state equal to `p` (`length` when absent) -/
+def idxIn : List Params → Params → Nat
+  | [], _ => 0
+  | a :: rest, p => if a.u == p.u && a.w == p.w then 0 else idxIn rest p + 1
 
 def step (s : St) : List String → St × String
   | ["setu", u] => match ratss? u with
@@ -66,16 +89,32 @@ def step (s : St) : List String → St × String
   | ["uupd", r] => match ratss? r with
     | some r => (s, showOptMat s.N s.K (uUpdate? s.data (matOf s.u) (matOf s.w) (matOf r)))
     | none => (s, "bad-op")
-  | ["fit", fu, fw, dsup, ru, rw, sq, n] =>
-    match ratss? ru, ratss? rw, rat? sq, nat? n, int? dsup with
-    | some ru, some rw, some sq, some n, some dsup =>
+  | ["fit", fu, fw, dsup, ru, rw, sq, n, tol, every] =>
+    match ratss? ru, ratss? rw, rat? sq, nat? n, int? dsup, stop? tol every with
+    | some ru, some rw, some sq, some n, some dsup, some stop =>
       let uSup := if fu = "1" then some s.u else none
       let wSup := if fw = "1" then some s.w else none
       let D := if dsup < 0 then none else some dsup.toNat
-      match fit s.data uSup wSup D s.u s.w (matOf ru) (matOf rw) sq n with
+      match fit s.data uSup wSup D s.u s.w (matOf ru) (matOf rw) sq stop n with
       | none => (s, "rej")
-      | some (D, p) => (s, toString D ++ "|" ++ showRatss p.u ++ "|" ++ showRatss p.w)
-    | _, _, _, _, _ => (s, "bad-op")
+      | some (D, p) =>
+        let r := fitRun s.data uSup wSup s.u s.w (matOf ru) (matOf rw) stop n
+        (s, toString D ++ "|" ++ showRatss p.u ++ "|" ++ showRatss p.w ++ "|" ++ toString r.it ++ "|" ++ showBool r.reached)
+    | _, _, _, _, _, _ => (s, "bad-op")
+  | ["traj", us, ws] => match ratsss? us, ratsss? ws with
+    | some us, some ws => ({ s with tbl := (us.zip ws).map fun (u, w) => ({ u := u, w := w } : Params) }, "ok")
+    | _, _ => (s, "bad-op")
+  | ["ctrl", tol, every, n] => match stop? tol every, nat? n with
+    | some stop, some n =>
+      match s.tbl with
+      | [] => (s, "bad-op")
+      | p0 :: _ =>
+        if stopOk stop then
+          let d := dataOf p0.u.length p0.w.length [] []
+          let r := loopFrom d (nextIn s.tbl) stop n 0 p0 p0
+          (s, toString r.it ++ "|" ++ showBool r.reached ++ "|" ++ toString (idxIn s.tbl r.p))
+        else (s, "rej")
+    | _, _ => (s, "bad-op")
   | _ => (s, "bad-op")
 
 def main : IO Unit := Wire.run step {}
